@@ -97,7 +97,7 @@ Inductive lop :=
 | LGetMulti (name : option (list N))
 | LRemove (name : option (list N))
 | LWalk (name : option (list N)) (n : nat) (rm : list bool)
-    (* cleared lcursor, up to n calls of getnext(name); after the i-th entry handed out, removeobj(lcursor) when rm[i] *)
+    (* cleared cursor, up to n calls of getnext(name); after the i-th entry handed out, removeobj(cursor) when rm[i] *)
 | LSize | LSort | LClear
 | LSave (sep : N) (enc : bool)
 | LLoad (content : list N) (sep : N) (dec : bool)
@@ -131,7 +131,7 @@ Definition namecmp (t : ltbl) (a b : list N) : comparison := if t_casei t then s
 Definition view (t : ltbl) : list lobj := if t_fwd t then t_ents t else rev (t_ents t).
 Definition idhd (l : list lobj) : option positive := match l with o :: _ => Some (oid o) | [] => None end.
 
-(* findobj(ltbl, name, NULL) *)
+(* findobj(tbl, name, NULL) *)
 Definition findobj (t : ltbl) (name : list N) : option lobj :=
   if t_num t =? 0 then None else find (fun o => namematch t o name (hash name)) (view t).
 
@@ -196,7 +196,7 @@ Definition qremoveobj (t : ltbl) (c : lcursor) : res (ltbl * bool) :=
     | None =>
       match c_next c with
       | Some n => match nbrs n None (t_ents t) with Some (pv, _) => Ok pv | None => Crash end        (* next->prev *)
-      | None => Ok (idhd (t_ents t))                                                               (* ltbl->first *)
+      | None => Ok (idhd (t_ents t))                                                               (* tbl->first *)
       end
     end in
   bind this (fun th =>
